@@ -1,0 +1,45 @@
+#  This file is part of Pynguin.
+#
+#  SPDX-FileCopyrightText: 2019–2026 Pynguin Contributors
+#
+#  SPDX-License-Identifier: MIT
+#
+"""Fault-injection points for external verification harnesses.
+
+Everything in here is inert unless the environment variable ``PYNGUIN_VERIF`` is
+set to ``1``.  With the guard on, ``PYNGUIN_VERIF_CRASH_AT`` names the pipeline
+phase at which the current process kills itself (``os._exit``), as long as the
+counter file named by ``PYNGUIN_VERIF_CRASH_COUNTER`` holds a positive number
+(it is decremented on every crash, so "crash twice, then survive" can be
+expressed).
+"""
+
+from __future__ import annotations
+
+import os
+
+_GUARD = "PYNGUIN_VERIF"
+
+
+def crash_point(name: str) -> None:
+    """Kill the current process here if the harness asked for it.
+
+    Args:
+        name: The name of the pipeline phase that has been reached.
+    """
+    if os.environ.get(_GUARD) != "1":
+        return
+    if os.environ.get("PYNGUIN_VERIF_CRASH_AT") != name:
+        return
+    counter_file = os.environ.get("PYNGUIN_VERIF_CRASH_COUNTER")
+    if counter_file:
+        try:
+            with open(counter_file, encoding="utf-8") as handle:  # noqa: PTH123
+                remaining = int(handle.read().strip() or "0")
+        except (OSError, ValueError):
+            remaining = 0
+        if remaining <= 0:
+            return
+        with open(counter_file, "w", encoding="utf-8") as handle:  # noqa: PTH123
+            handle.write(str(remaining - 1))
+    os._exit(70)
